@@ -87,16 +87,52 @@ STMT_KINDS = {"CompoundStmt", "IfStmt", "ForStmt", "WhileStmt", "DoStmt", "Switc
               "DeclStmt", "LabelStmt"}
 
 
-def _shape(stack):
-    """parent kinds from the enclosing statement down to the call's parent, e.g. 'IfStmt>BinaryOperator(||)>BinaryOperator(!=)'"""
+COMPARISONS = ("==", "!=", "<", ">", "<=", ">=")
+
+
+def _literal(n):
+    """text of an integer literal operand (through casts, parentheses and a unary minus), else '?'"""
+    sign = ""
+    while isinstance(n, dict):
+        k = n.get("kind")
+        if k == "IntegerLiteral":
+            return sign + str(n.get("value"))
+        if k == "UnaryOperator" and n.get("opcode") == "-":
+            sign = "-" if not sign else ""
+        elif k not in ("ImplicitCastExpr", "ParenExpr", "CStyleCastExpr", "ConstantExpr"):
+            return "?"
+        inner = [c for c in n.get("inner") or [] if isinstance(c, dict)]
+        n = inner[0] if len(inner) == 1 else None
+    return "?"
+
+
+def _shape(stack, node=None):
+    """parent kinds from the enclosing statement down to the call's parent, e.g.
+    'IfStmt(cond)>BinaryOperator(||)>BinaryOperator(!= 0)': an if statement says whether the call is in its condition, a
+    comparison carries the side the result is on and the other
+    operand when that is an integer literal ('(0 ==)' when the call is the right operand)"""
     parts = []
-    for s in reversed(stack):
+    path = stack + [node]
+    for i in range(len(stack) - 1, -1, -1):
+        s = stack[i]
         k = s.get("kind")
         if k == "CompoundStmt":
             break
         if k in ("ImplicitCastExpr", "ParenExpr"):
             continue
-        parts.append(k + ("(%s)" % s["opcode"] if "opcode" in s else ""))
+        tag = "(%s)" % s["opcode"] if "opcode" in s else ""
+        if k == "BinaryOperator" and s.get("opcode") in COMPARISONS and node is not None:
+            ops = [c for c in s.get("inner") or [] if isinstance(c, dict)]
+            if len(ops) == 2:
+                mine = 0 if ops[0] is path[i + 1] else 1 if ops[1] is path[i + 1] else None
+                if mine == 0:
+                    tag = "(%s %s)" % (s["opcode"], _literal(ops[1]))
+                elif mine == 1:
+                    tag = "(%s %s)" % (_literal(ops[0]), s["opcode"])
+        if k == "IfStmt" and node is not None:
+            kids = [c for c in s.get("inner") or [] if isinstance(c, dict)]
+            tag = "(cond)" if kids and kids[0] is path[i + 1] else "(body)"
+        parts.append(k + tag)
         if k in STMT_KINDS:
             break
     return ">".join(reversed(parts)) or "ExprStmt"
@@ -131,7 +167,7 @@ def _ast_sites(rel):
                 callee_refs.add(ref)
                 o = counts.get((func, name), 0)
                 counts[(func, name)] = o + 1
-                found.append(Site(rel, func or "<file scope>", name, o, state["line"], _shape(stack)))
+                found.append(Site(rel, func or "<file scope>", name, o, state["line"], _shape(stack, n)))
         if k == "DeclRefExpr" and (n.get("referencedDecl") or {}).get("name") in TARGETS and id(n) not in callee_refs \
                 and (n.get("referencedDecl") or {}).get("kind") == "FunctionDecl":
             name = n["referencedDecl"]["name"]
